@@ -24,7 +24,7 @@ from ..reftensor import KEYS21
 
 ID = "C14"
 SHARDS = {"quick": 16, "thorough": 16}
-RULE = ("(histories) rule-based machine: two drawn data sets A,B; rules construct(A|B), read(quantity), read-twice, "
+RULE = ("(histories) rule-based machine: two drawn data sets A,B (unrelated, B = A with another interpolation order, or B = A with every frequency times 1+2e-6; the kind is rotated over the shards); rules construct(A|B), read(quantity), read-twice, "
         "write_output into a fresh directory; every observation is compared bitwise with the first observation of the same "
         "quantity of the same data set; non-trivial = >= 2 constructions of different data sets interleaved and >= 1 repeated write. "
         "(subprocess) `cij run` of one drawn data set with PYTHONHASHSEED in {0,1,drawn} x working directory {empty, stray files, a "
@@ -177,9 +177,15 @@ def make_machine(ctx, server):
             self.specs = None
             self.ok = False
 
-        @initialize(a=small_specs(), b=small_specs(), twin=st.booleans())
+        # (Hypothesis tries the first element most often when only a dozen histories run per shard: rotate it by shard)
+        @initialize(a=small_specs(), b=small_specs(),
+                    twin=st.sampled_from(([False, True, "near", False] * 2)[ctx.shard % 4: ctx.shard % 4 + 4]))
         def init(self, a, b, twin):
-            if twin:
+            if twin == "near":
+                # B is A with every frequency scaled by 1 + 2e-6 (a re-converged phonon run): a different calculation whose
+                # inputs are equal to A's within any "approximately equal" comparison
+                b = dict(a, nu_scale=1.0 + 2e-6)
+            elif twin:
                 # B is the same physical data and the same (T,V) grids as A, evaluated with another interpolation order:
                 # everything that identifies a calculation by its grids alone is identical
                 b = dict(a, order=(1 if a["order"] != 1 else 2))
@@ -277,7 +283,10 @@ def make_machine(ctx, server):
             writes = [e[1] for e in self.log if e[0] == "write"]
             nt = len(set(cons)) == 2 and len(cons) >= 2 and any(writes.count(w) >= 2 for w in set(writes))
             ctx.case({"history": list(self.log), "seedA": self.specs["A"]["seed"], "seedB": self.specs["B"]["seed"]}, nt,
-                     classes=["history-step-" + self.log[-1][0]])
+                     classes=["history-step-" + self.log[-1][0],
+                              "data-sets-" + ("near-twin(frequencies x 1+2e-6)" if self.specs["B"].get("nu_scale") else
+                                              "twin(other order)" if {k: v for k, v in self.specs["B"].items() if k != "order"} ==
+                                              {k: v for k, v in self.specs["A"].items() if k != "order"} else "unrelated")])
 
         def teardown(self):
             for d in self.dirs:
